@@ -84,6 +84,14 @@ func (p *c04) RunCase(ctx *runner.Ctx) runner.CaseResult {
 	adapter := adapt.Adapters[ctx.Case%2]
 	spec := ixSpec("tbl04", true)
 	nOps := 10 + r.Intn(25)
+	big := ctx.Case%10 == 7
+	if big {
+		// scaled state (see useBigPools): 40-260 sort keys per partition, runs of equal index keys longer than
+		// 12 / 16 / 32 / 64 entries, page boundaries inside such runs
+		defer useBigPools(r)()
+		nOps = len(ixRangePool) + r.Intn(len(ixRangePool))
+		x.r.Counters["scaled_states"]++
+	}
 	cl, m, hist, ok := buildState(r, adapter, spec, nOps, ctx, x)
 	if !ok {
 		return x.r
@@ -141,6 +149,16 @@ func (p *c04) RunCase(ctx *runner.Ctx) runner.CaseResult {
 		n := len(src)
 		maxPages := n + 3
 		for L := 1; L <= n+1; L++ {
+			if big && L > 3 && L < n-1 {
+				// scaled states: Limits 1-3, the sizes around the usual thresholds, a few random ones, n-1..n+1
+				keep := false
+				for _, t := range []int{7, 11, 12, 13, 15, 16, 17, 31, 32, 33, 63, 64, 65, 99, 100, 101, 127, 128, 129} {
+					keep = keep || L == t
+				}
+				if !keep && r.Intn(40) != 0 {
+					continue
+				}
+			}
 			w := walk(cl, rq.op, L, maxPages, 0, nil, ctx, x)
 			x.fp(w.pages >= 2, "%s|%s|L%d|p%d|plain", adapter, rq.kind, L, w.pages)
 			if w.problem != "" {
